@@ -7,9 +7,13 @@ Ranges: the code computes in uint32_t.  The theorems exclude (decidable hypothes
 days of the uint32 epoch range where `next += kSecondsOfDay` wraps (t + 9 d ≤ 2^32 for weekly,
 t + 368 d ≤ 2^32 for workday) and local times before 1970 (`InRange`); the model itself wraps
 like the code (correspondence-checked over the whole range).
-Cron: CronAlarm delegates to the third-party ccronexpr — not modelled (OPEN, see plugin notes).
+Cron: CronAlarm delegates to the third-party ccronexpr, which is NOT modelled; Part 4 proves that the
+independent reference `Cron.nextCron` (to which ccronexpr is tied by correspondence only) returns the
+declaratively earliest matching instant.
 -/
 import TboxModel.C20.HistProofs
+import TboxModel.C20.WProofs
+import TboxModel.C20.CronProofs
 namespace Tbox.C20
 
 /-! ### Part 1 — the next-instant computations -/
@@ -204,6 +208,76 @@ theorem C20_fired_was_enabled (c : Cls) (hist : List (Env × AOp)) :
     (∀ f ∈ (arun (fresh c) hist).2, f.wasRunning = true) ∧ Inv (arun (fresh c) hist).1 :=
   ⟨(arun_inv hist (fresh c) (fresh_inv c)).2, (arun_inv hist (fresh c) (fresh_inv c)).1⟩
 
+/-! ### Part 4 — worlds: several alarms, callbacks that call the API, calendar watch list, destruction.
+Every theorem quantifies over EVERY execution `wExec wInit sts = some w`: any API calls outside
+callbacks, any clock changes, any callback scripts (refresh / disable / enable of any alarm incl. the
+one whose callback runs, destruction of other alarms, calendar updates), and any order in which the
+loop serves several due timers (`fire j` is enabled for every due timer of minimal deadline). -/
+
+/-- **no dangling watch-list entry** (patches/C20-03): every entry of the calendar's watch list is a
+living alarm, so a calendar update never calls refresh() on a destroyed one — also when the alarm was
+destroyed while enabled, after a failed enable(), or from inside another alarm's callback. -/
+theorem C20_watch_alive (sts : List WStep) (w : World) (he : wExec wInit sts = some w) :
+    (∀ j, j ∈ w.watch → (w.get j).isSome = true) ∧ ∀ cal, (wCalUpdate w cal).2 = false :=
+  have h := wExec_inv sts wInit w wInit_inv he
+  ⟨h.watch, fun cal => (wCalUpdate_inv w cal h).2⟩
+
+-- the same is FALSE of the tree without patches/C20-03 (~Alarm() cannot reach WorkdayAlarm::onDisable()):
+/-- enabled workday alarm destroyed the unpatched way: its entry stays in the watch list, the slot is
+gone, and the next calendar update dereferences it (the use-after-free ASan reports on the real code). -/
+theorem C20_destroy_unpatched_counterexample :
+    (wExec wInit [.op (.new 0 .workday []), .op (.init 0 100 [] true), .op (.enable 0)]).map
+      (fun w => ((wDestroyUnpatched w 0).watch, ((wDestroyUnpatched w 0).get 0).isSome,
+                 (wCalUpdate (wDestroyUnpatched w 0) {}).2, (wCalUpdate (wDestroy w 0) {}).2))
+      = some ([0], false, true, false) := by decide
+
+/-- **every callback finds its alarm enabled**, in every world execution (a timer that was disabled,
+cleaned up or destroyed — by the user or by another callback of the same pass — is not served). -/
+theorem C20_world_callbacks_enabled (sts : List WStep) (w : World) (he : wExec wInit sts = some w) :
+    ∀ ev, ev ∈ w.log → ev.wasRunning = true :=
+  fun ev h => ((wExec_inv sts wInit w wInit_inv he).log ev h).1
+
+-- OPEN (false of the code, see the counterexample below): in every world execution the instants one
+-- alarm serves strictly increase — `∀ ev ∈ w.log, ev.prev < ev.instant`.
+/-- **once per instant**, partial: the instant a callback stands for is strictly later than the one
+the same alarm served before, PROVIDED the alarm's ghost flags are clear: no arm ever started from a
+base before the last served instant (`early`: refresh() / disable()+enable() while the wall clock is
+still behind an instant already served — an early wake-up window or a wall clock set back) and no arm
+happened outside the no-wrap range (`wrapped`).  Holds with callbacks calling any API. -/
+theorem C20_once_per_instant_partial (sts : List WStep) (w : World) (he : wExec wInit sts = some w) :
+    ∀ ev, ev ∈ w.log → ev.flagsClear = true → ev.prev < ev.instant :=
+  fun ev h => ((wExec_inv sts wInit w wInit_inv he).log ev h).2
+
+/-- … and in every reachable world an enabled alarm with clear flags is armed for an instant strictly
+after the last one it served (the extension of `C20_targets_strictly_increase` to scripted histories) -/
+theorem C20_world_targets_increase (sts : List WStep) (w : World) (he : wExec wInit sts = some w)
+    (j : Nat) (a : Alarm) (hg : w.get j = some a) (hr : a.st = .running) (h1 : a.early = false) (h2 : a.wrapped = false) :
+    a.lastServed < a.target :=
+  ((wExec_inv sts wInit w wInit_inv he).alarms j a hg).k hr h1 h2
+
+/-- the full statement is false: monotonic clock 5 ms ahead of the wall clock, the callback calls
+refresh() on its own alarm.  The timer fires at 00:01:39.995 for 00:01:40; refresh() recomputes from
+"now" and arms 00:01:40 again; 5 ms later the SAME instant is served a second time. -/
+theorem C20_refresh_in_early_callback_counterexample :
+    (wExec wInit [.op (.new 0 .weekly [.refresh 0]), .op (.init 0 100 [true, true, true, true, true, true, true] true),
+                  .op (.tz 0 0), .op (.wall 86400000000), .op (.enable 0), .op (.mono 5), .op (.adv 99995), .fire 0,
+                  .op (.adv 5), .fire 0]).map (fun w => w.log.map (fun ev => (ev.instant, ev.flagsClear)))
+      = some [(86400100, false), (86400100, true)] := by decide
+
+/-! ### Part 5 — cron (reference semantics; ccronexpr itself is tied by correspondence only) -/
+
+/-- the executable reference returns the EARLIEST instant after t that lies on a day the expression
+allows (month AND day-of-month AND weekday, as ccronexpr combines them) at an allowed time of day —
+for every expression, every t, every horizon. -/
+theorem C20_cron_earliest (e : Cron.Expr) (t H r : Nat) (h : Cron.nextCron e t H = some r) :
+    Earliest (Cron.CronMatch e) t r :=
+  Cron.nextCron_some e t H r h
+
+/-- and when it finds nothing there is no matching instant on any day up to `H` days ahead -/
+theorem C20_cron_none (e : Cron.Expr) (t H : Nat) (h : Cron.nextCron e t H = none) :
+    ∀ r', t < r' → r' / 86400 ≤ t / 86400 + H → ¬ Cron.CronMatch e r' :=
+  Cron.nextCron_none e t H h
+
 /-! ### non-vacuity -/
 
 /-- Tuesday 2023-11-14 22:13:20 UTC, alarm at 10:00 on Wednesdays and Sundays → Wed 10:00 -/
@@ -230,5 +304,14 @@ example : ((expire { demoAlarm with st := .running, target := 1700008200, timer 
 example : (arun (fresh .oneshot)
     [({ wallMs := 1000000000, monoMs := 0 }, .init 100 [] true), ({ wallMs := 1000000000, monoMs := 0 }, .enable),
      ({ wallMs := 90000000000, monoMs := 89000000000 }, .pass), ({ wallMs := 190000000000, monoMs := 189000000000 }, .pass)]).2.length = 1 := by decide
+
+/-- calendar sanity: epoch, a leap day, the non-leap century 2100, end of the uint32 range -/
+example : Cron.civil 0 = (1970, 1, 1) ∧ Cron.civil 11016 = (2000, 2, 29) ∧ Cron.civil 47540 = (2100, 2, 28) ∧
+    Cron.civil 47541 = (2100, 3, 1) ∧ Cron.civil 49710 = (2106, 2, 7) ∧ Cron.dayOfWeek 19675 = 2 := by decide
+/-- "0 0 12 1,15 * 1-5": the 15th of Nov 2023 is a Wednesday → allowed day; noon is the allowed time -/
+example : (Cron.parse [⟨.one 0, none⟩] [⟨.one 0, none⟩] [⟨.one 12, none⟩] [⟨.one 1, none⟩, ⟨.one 15, none⟩] [⟨.star, none⟩] [⟨.span 1 5, none⟩]).map
+    (fun e => (Cron.dayOk e 19676, Cron.dayOk e 19675, Cron.timeOk e 43200, Cron.timeOk e 43201)) = some (true, false, true, false) := by decide
+/-- Sunday as 7, a step from a bare number, a rejected range -/
+example : (Cron.fieldBits [⟨.one 1, some 2⟩] 0 8, Cron.fieldBits [⟨.span 5 3, none⟩] 0 60) = (some 0b10101010, none) := by decide
 
 end Tbox.C20
